@@ -177,6 +177,13 @@ func (r *runner) profileChecks(views map[string]*LedgerView, commits []CommitRec
 	if r.has("bulk") {
 		r.addV(checkBulk(r, views)...)
 	}
+	if r.has("ik") {
+		r.addV(checkIK(r, views)...)
+		funds := int64(u64(r.sc.Params["funds"]))
+		results := r.results
+		prop := r.sc.Property
+		r.post = append(r.post, func() ([]Violation, bool) { return checkIKLinearizable(prop, funds, results) })
+	}
 }
 
 // checkRevertAnswers: per reverted transaction, exactly one caller was told success; everybody else
